@@ -3407,7 +3407,7 @@ def SIR_compact_pairwise(Sk0, I0, R0, SS0, SI0, tau, gamma, tmin=0, tmax=100,
     X0 = np.concatenate((Sk0, [SS0, SI0, R0]), axis=0)
     X = integrate.odeint(_dSIR_compact_pairwise_, X0, times, 
                             args = (N, tau, gamma))
-    SI, SS, R = X.T[-3:]
+    SS, SI, R = X.T[-3:]
     Sk = X.T[:-3]
     S = Sk.sum(axis=0)
     I = N - R - S
